@@ -382,7 +382,7 @@ impl Case {
 			.unwrap_or(0);
 		let mut v: Vec<Slot> = Vec::with_capacity(nslots);
 		for _ in 0..nslots {
-			v.push(Slot { m: M::new(0), r: R::new(0), o: UnsafeCell::new(MaybeUninit::uninit()) });
+			v.push(Slot { m: M::new(crate::vraw::Val(0)), r: R::new(crate::vraw::Val(0)), o: UnsafeCell::new(MaybeUninit::uninit()) });
 		}
 		let slots: &'static [Slot] = Box::leak(v.into_boxed_slice());
 		let mut b = Built { slots, colls: Vec::new(), poisonables: Vec::new(), leaf_slot: self.addr.clone() };
